@@ -1,4 +1,5 @@
-"""Sensitivity audit: run the checks on the variants of selftest/variants.py and on the seeded changes (seeded/*/patch.diff).
+"""Sensitivity audit: run the checks on the variants of selftest/variants.py, on the seeded changes (seeded/*/patch.diff) and on
+the corpus of behaviour-preserving refactorings (benign/*/*.diff: every check must stay silent on them).
 
     ./check --selftest [Cxx]      run the whole corpus (or the variants relevant to one property), print a table, exit 0 iff every
                                   break-variant is reported by all the properties it lists and every benign variant is silent
@@ -101,6 +102,16 @@ def jobs_for(pid=None):
             if pid and pid not in exp:
                 continue
             jobs.append((f"seeded/{s}", exp, None, [pid] if pid else sorted(exp), os.path.join(sd, s, "patch.diff")))
+    # behaviour-preserving refactorings written by independent sub-agents: every check must stay silent on each of them
+    bd = os.path.join(HERE, "benign")
+    if os.path.isdir(bd):
+        for area in sorted(os.listdir(bd)):
+            ad = os.path.join(bd, area)
+            if not os.path.isdir(ad):
+                continue
+            for fn in sorted(os.listdir(ad)):
+                if fn.endswith(".diff"):
+                    jobs.append((f"benign/{area}/{fn}", B, None, [pid] if pid else ALL, os.path.join(ad, fn)))
     return jobs
 
 
